@@ -4,7 +4,7 @@ import ast, json, os, sys
 sys.dont_write_bytecode = True
 ROOT = os.path.dirname(os.path.dirname(os.path.abspath(__file__)))
 sys.path.insert(0, ROOT)
-from sa.localnames import describe, outer_functions, TABLE_PATH, _param_list
+from sa.localnames import describe, outer_functions, TABLE_PATH, _param_list, private_attributes
 from sa.normalise import normalise_tree
 out = {}
 base = "/repo"
@@ -23,6 +23,11 @@ for dp, dn, fns in os.walk(os.path.join(base, "ariadne_codegen")):
             if d["names"] or d.get("nested"):
                 e.update(d)
             ent[q] = e
+        for st in tree.body:
+            if isinstance(st, ast.ClassDef):
+                attrs = private_attributes(st)
+                if attrs:
+                    ent["<attrs>:" + st.name] = attrs
         if ent:
             out[rel] = ent
 json.dump(out, open(TABLE_PATH, "w"), indent=0, sort_keys=True)
